@@ -30,11 +30,17 @@ static inline Mat block_mat(const calfile::Block &b) {
 }
 static inline long double maxabs(const Mat &A) { long double m = 0; for (auto &x : A.a) m = std::max(m, std::abs(x)); return m; }
 
+// magnitude of the coefficients of one standard's equations: the equations multiply M and S, so for large values the
+// product counts (used for the normwise measure; the per-standard measure keeps its calibrated max(1, |S|, |M|))
+static inline long double cscale(const Mat &S, const Mat &M, bool normwise) { long double a = maxabs(S), b = maxabs(M); return normwise ? std::max({1.0L, a, b, a * b}) : std::max({1.0L, a, b}); }
+
 // returns the largest relative residual over all standards at frequency index f; why = text on structural problems
-static inline long double saved_terms_residual(const Scenario &sc, const calfile::Cal &cal, int f, std::string &why) {
+// normwise = true: largest residual of any standard over the largest scale of any standard (normwise backward error
+// of the whole system) instead of the largest per-standard ratio
+static inline long double saved_terms_residual(const Scenario &sc, const calfile::Cal &cal, int f, std::string &why, bool normwise = false) {
     const calfile::Freq &fr = cal.data[f];
     int r = sc.r, c = sc.c, P = sc.P;
-    long double worst = 0;
+    long double worst = 0, worst_res = 0, worst_scale = 1e-300L;
     auto need = [&](const char *n) -> const calfile::Block * { const calfile::Block *b = find_block(fr, n); if (!b) why = std::string("block '") + n + "' missing"; return b; };
     for (size_t s = 0; s < sc.stds.size(); s++) {
         const Mat &S = sc.stds[s].Sfull[f];
@@ -48,7 +54,7 @@ static inline long double saved_terms_residual(const Scenario &sc, const calfile
             Mat Mp = M;
             if (sc.type == vm::TE10) { const calfile::Block *el = need("el"); if (!el) return INFINITY; Mat El = block_mat(*el); for (int i = 0; i < r; i++) for (int j = 0; j < c; j++) if (i != j) Mp(i, j) -= El(i, j); }
             Mat L = vm::add(vm::mul(Ts, S), Ti), R = vm::add(vm::mul(vm::mul(Mp, Tx), S), vm::mul(Mp, Tm));
-            res = maxabs(vm::add(L, R, -1)); scale = std::max({maxabs(Ts), maxabs(Ti), maxabs(Tx), maxabs(Tm)}) * std::max({1.0L, maxabs(S), maxabs(M)});
+            res = maxabs(vm::add(L, R, -1)); scale = std::max({maxabs(Ts), maxabs(Ti), maxabs(Tx), maxabs(Tm)}) * cscale(S, M, normwise);
         } else if (sc.type == vm::U8 || sc.type == vm::UE10 || sc.type == vm::U16) {
             const calfile::Block *um = need("um"), *ui = need("ui"), *ux = need("ux"), *us = need("us"); if (!um || !ui || !ux || !us) return INFINITY;
             bool full = sc.type == vm::U16;
@@ -57,7 +63,7 @@ static inline long double saved_terms_residual(const Scenario &sc, const calfile
             Mat Mp = M;
             if (sc.type == vm::UE10) { const calfile::Block *el = need("el"); if (!el) return INFINITY; Mat El = block_mat(*el); for (int i = 0; i < r; i++) for (int j = 0; j < c; j++) if (i != j) Mp(i, j) -= El(i, j); }
             Mat L = vm::add(vm::mul(Um, Mp), Ui), R = vm::mul(S, vm::add(vm::mul(Ux, Mp), Us));
-            res = maxabs(vm::add(L, R, -1)); scale = std::max({maxabs(Um), maxabs(Ui), maxabs(Ux), maxabs(Us)}) * std::max({1.0L, maxabs(S), maxabs(M)});
+            res = maxabs(vm::add(L, R, -1)); scale = std::max({maxabs(Um), maxabs(Ui), maxabs(Ux), maxabs(Us)}) * cscale(S, M, normwise);
         } else if (sc.type == vm::UE14) {
             const calfile::Block *um = need("um"), *ui = need("ui"), *ux = need("ux"), *us = need("us"), *el = need("el"); if (!um || !ui || !ux || !us || !el) return INFINITY;
             Mat UM = block_mat(*um), UI = block_mat(*ui), UX = block_mat(*ux), US = block_mat(*us), El = block_mat(*el);
@@ -67,7 +73,7 @@ static inline long double saved_terms_residual(const Scenario &sc, const calfile
                 for (int i = 0; i < r; i++) { Umj(i, i) = UM(i, j); Uxj(i, i) = UX(i, j); }
                 ui(j, 0) = UI(0, j); us(j, 0) = US(0, j);
                 Mat L = vm::add(vm::mul(Umj, m), ui), R = vm::mul(S, vm::add(vm::mul(Uxj, m), us));
-                res = std::max(res, maxabs(vm::add(L, R, -1))); scale = std::max(scale, std::max({maxabs(Umj), maxabs(ui), maxabs(Uxj), maxabs(us)}) * std::max({1.0L, maxabs(S), maxabs(M)}));
+                res = std::max(res, maxabs(vm::add(L, R, -1))); scale = std::max(scale, std::max({maxabs(Umj), maxabs(ui), maxabs(Uxj), maxabs(us)}) * cscale(S, M, normwise));
             }
         } else {    // E12
             const calfile::Block *el = need("el"), *er = need("er"), *em = need("em"); if (!el || !er || !em) return INFINITY;
@@ -81,9 +87,9 @@ static inline long double saved_terms_residual(const Scenario &sc, const calfile
             }
         }
         if (getenv("CALV_DEBUG")) fprintf(stderr, "CALV std %zu res %.3Lg scale %.3Lg\n", s, res, scale);
-        worst = std::max(worst, res / scale);
+        worst = std::max(worst, res / scale); worst_res = std::max(worst_res, res); worst_scale = std::max(worst_scale, scale);
     }
-    return worst;
+    return normwise ? worst_res / worst_scale : worst;
 }
 
 // vnacal_save to a temp file (data precision forced to the maximum) and parse it independently
